@@ -5,6 +5,7 @@
 package c07
 
 import (
+	"context"
 	"database/sql/driver"
 	"fmt"
 	"reflect"
@@ -14,6 +15,7 @@ import (
 	"time"
 
 	"gorm.io/gorm"
+	"gorm.io/gorm/schema"
 )
 
 type Company struct {
@@ -149,6 +151,7 @@ type Widget struct {
 	Code      string
 	Weight    float64
 	DeletedAt gorm.DeletedAt
+	Secret    Cipher
 }
 
 // A second family, unrelated to the first: one shared target type (Parcel) that is the has-many /
@@ -189,6 +192,67 @@ type Sorter struct {
 	Parcel *Parcel `gorm:"foreignKey:SorterID"` // has one
 }
 
+// Three more families, unrelated to each other and to the first two: an owner type with a
+// many-to-many relation to a target type of its own (own join table). Different goroutines can use
+// them for the first time at the same instant on a cold handle without entering the listed
+// first-use classes (no schema is reached from two parses), so the many-to-many parse itself
+// (join table type built by reflect.StructOf, name casing) runs concurrently.
+type Band struct {
+	ID    uint `gorm:"primaryKey;autoIncrement:false"`
+	Name  string
+	Songs []Song `gorm:"many2many:band_songs"`
+}
+
+type Song struct {
+	ID    uint `gorm:"primaryKey;autoIncrement:false"`
+	Title string
+}
+
+type Team struct {
+	ID     uint `gorm:"primaryKey;autoIncrement:false"`
+	Name   string
+	Skills []Skill `gorm:"many2many:team_skills"`
+}
+
+type Skill struct {
+	ID    uint `gorm:"primaryKey;autoIncrement:false"`
+	Label string
+}
+
+type Shop struct {
+	ID     uint `gorm:"primaryKey;autoIncrement:false"`
+	Name   string
+	Brands []Brand `gorm:"many2many:shop_brands"`
+}
+
+type Brand struct {
+	ID    uint `gorm:"primaryKey;autoIncrement:false"`
+	Label string
+}
+
+// Cipher is a field type that is its own serializer (schema.SerializerInterface) with a stateful
+// pointer-receiver Scan: it decodes into the receiver, and gorm then copies the receiver into the
+// field. Every pooled scan value must therefore own its serializer instance.
+type Cipher string
+
+func (c *Cipher) Scan(ctx context.Context, field *schema.Field, dst reflect.Value, dbValue interface{}) error {
+	switch v := dbValue.(type) {
+	case []byte:
+		*c = Cipher(strings.TrimPrefix(string(v), "enc:"))
+	case string:
+		*c = Cipher(strings.TrimPrefix(v, "enc:"))
+	case nil:
+		*c = ""
+	default:
+		return fmt.Errorf("c07: Cipher.Scan %T", dbValue)
+	}
+	return nil
+}
+
+func (c Cipher) Value(ctx context.Context, field *schema.Field, dst reflect.Value, fieldValue interface{}) (interface{}, error) {
+	return "enc:" + string(c), nil
+}
+
 // model kinds
 const (
 	mCompany = iota
@@ -204,22 +268,44 @@ const (
 	mCourier
 	mCustoms
 	mSorter
+	mBand
+	mSong
+	mTeam
+	mSkill
+	mShop
+	mBrand
 	nModels
 )
 
-var modelNames = [nModels]string{"Company", "Author", "Profile", "Book", "Review", "Tag", "Gadget", "Widget", "Parcel", "Depot", "Courier", "Customs", "Sorter"}
-var modelTables = [nModels]string{"companies", "authors", "profiles", "books", "reviews", "tags", "gadgets", "widgets", "parcels", "depots", "couriers", "customs", "sorters"}
+var modelNames = [nModels]string{"Company", "Author", "Profile", "Book", "Review", "Tag", "Gadget", "Widget", "Parcel", "Depot", "Courier", "Customs", "Sorter", "Band", "Song", "Team", "Skill", "Shop", "Brand"}
+var modelTables = [nModels]string{"companies", "authors", "profiles", "books", "reviews", "tags", "gadgets", "widgets", "parcels", "depots", "couriers", "customs", "sorters", "bands", "songs", "teams", "skills", "shops", "brands"}
 
-// family: 1 = Company..Tag, 2 = Parcel and its owners, 0 = relation-free.
+// family: 1 = Company..Tag, 2 = Parcel and its owners, 3/4/5 = Band+Song / Team+Skill / Shop+Brand,
+// 0 = relation-free.
+const nFamilies = 5
+
 func family(m int) int {
 	switch {
 	case m < mGadget:
 		return 1
+	case m >= mBand:
+		return 3 + (m-mBand)/2
 	case m >= mParcel:
 		return 2
 	}
 	return 0
 }
+
+// many-to-many families: owner, target, relation name, join table
+var m2mOwner = map[int]int{3: mBand, 4: mTeam, 5: mShop}
+
+func isM2MOwner(m int) bool { return m == mBand || m == mTeam || m == mShop }
+
+func m2mRel(owner int) string {
+	return map[int]string{mBand: "Songs", mTeam: "Skills", mShop: "Brands"}[owner]
+}
+
+var joinTables = []string{"author_tags", "band_songs", "team_skills", "shop_brands"}
 
 var (
 	family1Models = []int{mCompany, mAuthor, mProfile, mBook, mReview, mTag}
@@ -264,6 +350,18 @@ func newModel(m int) interface{} {
 		return &Customs{}
 	case mSorter:
 		return &Sorter{}
+	case mBand:
+		return &Band{}
+	case mSong:
+		return &Song{}
+	case mTeam:
+		return &Team{}
+	case mSkill:
+		return &Skill{}
+	case mShop:
+		return &Shop{}
+	case mBrand:
+		return &Brand{}
 	}
 	panic("harness: bad model kind")
 }
@@ -283,7 +381,16 @@ var ddl = []string{
 	"CREATE TABLE `tags` (`id` integer,`label` text,PRIMARY KEY (`id`))",
 	"CREATE TABLE `author_tags` (`author_id` integer,`tag_id` integer,PRIMARY KEY (`author_id`,`tag_id`))",
 	"CREATE TABLE `gadgets` (`id` integer,`name` text,`qty` integer,`labels` text,`level` text,`spec_color` text,`spec_size` integer,`created_at` datetime,`updated_at` datetime,PRIMARY KEY (`id`))",
-	"CREATE TABLE `widgets` (`id` integer,`code` text,`weight` real,`deleted_at` datetime,PRIMARY KEY (`id`))",
+	"CREATE TABLE `widgets` (`id` integer,`code` text,`weight` real,`deleted_at` datetime,`secret` text,PRIMARY KEY (`id`))",
+	"CREATE TABLE `bands` (`id` integer,`name` text,PRIMARY KEY (`id`))",
+	"CREATE TABLE `songs` (`id` integer,`title` text,PRIMARY KEY (`id`))",
+	"CREATE TABLE `band_songs` (`band_id` integer,`song_id` integer,PRIMARY KEY (`band_id`,`song_id`))",
+	"CREATE TABLE `teams` (`id` integer,`name` text,PRIMARY KEY (`id`))",
+	"CREATE TABLE `skills` (`id` integer,`label` text,PRIMARY KEY (`id`))",
+	"CREATE TABLE `team_skills` (`team_id` integer,`skill_id` integer,PRIMARY KEY (`team_id`,`skill_id`))",
+	"CREATE TABLE `shops` (`id` integer,`name` text,PRIMARY KEY (`id`))",
+	"CREATE TABLE `brands` (`id` integer,`label` text,PRIMARY KEY (`id`))",
+	"CREATE TABLE `shop_brands` (`shop_id` integer,`brand_id` integer,PRIMARY KEY (`shop_id`,`brand_id`))",
 	"CREATE TABLE `parcels` (`id` integer,`label` text,`weight` integer,`depot_id` integer,`courier_id` integer,`customs_id` integer,`sorter_id` integer,PRIMARY KEY (`id`))",
 	"CREATE TABLE `depots` (`id` integer,`name` text,PRIMARY KEY (`id`))",
 	"CREATE TABLE `couriers` (`id` integer,`name` text,PRIMARY KEY (`id`))",
@@ -389,7 +496,7 @@ func renderGadget(g *Gadget) string {
 }
 
 func renderWidget(w *Widget) string {
-	s := fmt.Sprintf("Widget{%d %q %g", w.ID, w.Code, w.Weight)
+	s := fmt.Sprintf("Widget{%d %q %g secret=%q", w.ID, w.Code, w.Weight, string(w.Secret))
 	if w.DeletedAt.Valid {
 		s += " deleted=" + w.DeletedAt.Time.UTC().Format("15:04:05")
 	}
@@ -444,6 +551,18 @@ func render(v interface{}) string {
 		return fmt.Sprintf("Courier{%d %q%s}", x.ID, x.Name, renderParcels(x.Parcels))
 	case *Customs:
 		return fmt.Sprintf("Customs{%d %q%s}", x.ID, x.Name, renderParcels(x.Parcels))
+	case *Band:
+		return fmt.Sprintf("Band{%d %q%s}", x.ID, x.Name, renderNested("songs", &x.Songs, x.Songs == nil))
+	case *Song:
+		return fmt.Sprintf("Song{%d %q}", x.ID, x.Title)
+	case *Team:
+		return fmt.Sprintf("Team{%d %q%s}", x.ID, x.Name, renderNested("skills", &x.Skills, x.Skills == nil))
+	case *Skill:
+		return fmt.Sprintf("Skill{%d %q}", x.ID, x.Label)
+	case *Shop:
+		return fmt.Sprintf("Shop{%d %q%s}", x.ID, x.Name, renderNested("brands", &x.Brands, x.Brands == nil))
+	case *Brand:
+		return fmt.Sprintf("Brand{%d %q}", x.ID, x.Label)
 	case *Sorter:
 		s := fmt.Sprintf("Sorter{%d %q", x.ID, x.Name)
 		if x.Parcel != nil {
@@ -464,6 +583,19 @@ func render(v interface{}) string {
 		return "[" + strings.Join(parts, " ") + "]"
 	}
 	panic(fmt.Sprintf("harness: render %T", v))
+}
+
+// renderNested renders a loaded to-many relation (members sorted).
+func renderNested(name string, slicePtr interface{}, isNil bool) string {
+	if isNil {
+		return ""
+	}
+	rv := reflect.ValueOf(slicePtr).Elem()
+	parts := make([]string, rv.Len())
+	for i := range parts {
+		parts[i] = render(rv.Index(i).Addr().Interface())
+	}
+	return " " + name + "=[" + strings.Join(sortedStrings(parts), ",") + "]"
 }
 
 func sortedStrings(s []string) []string { sort.Strings(s); return s }
